@@ -1,0 +1,127 @@
+//go:build verif
+
+// Contracts for package flags, read by the verifier in /verif (build tag verif).
+// This file contains comments only; it adds no code to the package.
+
+package flags
+
+// ---------------------------------------------------------------------------
+// C14: every token of the rule line is accounted for, or the line is rejected.
+//
+// -F: the accepted filter is the whole argument: field at the start, value up
+// to the end, operator immediately before the value, and nothing but white
+// space between field and operator.
+//@ func (*rule/flags.valueFilter).Set
+//@ modifies f.*
+//@ ensures[C14] isNil(result0) ==> len(f.LHS) + len(f.Comparator) + len(f.RHS) <= len(value)
+//@ ensures[C14] isNil(result0) ==> f.LHS == value[0:len(f.LHS)]
+//@ ensures[C14] isNil(result0) ==> f.RHS == value[len(value)-len(f.RHS):len(value)]
+//@ ensures[C14] isNil(result0) ==> f.Comparator == value[len(value)-len(f.RHS)-len(f.Comparator):len(value)-len(f.RHS)]
+//@ ensures[C14] isNil(result0) ==> forall j int :: len(f.LHS) <= j && j < len(value)-len(f.RHS)-len(f.Comparator) ==> (value[j] == 32 || value[j] == 9 || value[j] == 10 || value[j] == 12 || value[j] == 13)
+//@ ensures[C14] isNil(result0) ==> len(f.LHS) >= 1 && len(f.Comparator) >= 1 && len(f.RHS) >= 1
+//@ ensures[C14] isNil(result0) ==> f.Type == rule.ValueFilterType
+//
+// -C: same shape.
+//@ func (*rule/flags.interFieldFilter).Set
+//@ modifies f.*
+//@ ensures[C14] isNil(result0) ==> len(f.LHS) + len(f.Comparator) + len(f.RHS) <= len(value)
+//@ ensures[C14] isNil(result0) ==> f.LHS == value[0:len(f.LHS)]
+//@ ensures[C14] isNil(result0) ==> f.RHS == value[len(value)-len(f.RHS):len(value)]
+//@ ensures[C14] isNil(result0) ==> f.Comparator == value[len(value)-len(f.RHS)-len(f.Comparator):len(value)-len(f.RHS)]
+//@ ensures[C14] isNil(result0) ==> forall j int :: len(f.LHS) <= j && j < len(value)-len(f.RHS)-len(f.Comparator) ==> (value[j] == 32 || value[j] == 9 || value[j] == 10 || value[j] == 12 || value[j] == 13)
+//@ ensures[C14] isNil(result0) ==> len(f.LHS) >= 1 && len(f.Comparator) >= 1 && len(f.RHS) >= 1
+//@ ensures[C14] isNil(result0) ==> f.Type == rule.InterFieldFilterType
+//
+// Each -F / -C argument contributes exactly one filter, appended after the
+// ones already collected; a rejected argument contributes none.
+//@ func (*rule/flags.valueFilterList).Set
+//@ ensures[C14] isNil(result0) ==> len(*l) == old(len(*l)) + 1
+//@ ensures[C14] !isNil(result0) ==> len(*l) == old(len(*l))
+//@ ensures[C14] forall i int :: 0 <= i && i < old(len(*l)) ==> (*l)[i] == old((*l)[i])
+//@ ensures[C14] isNil(result0) ==> (*l)[len(*l)-1].Type == rule.ValueFilterType
+//@ ensures[C14] isNil(result0) ==> (*l)[len(*l)-1].LHS == value[0:len((*l)[len(*l)-1].LHS)]
+//@ ensures[C14] isNil(result0) ==> (*l)[len(*l)-1].RHS == value[len(value)-len((*l)[len(*l)-1].RHS):len(value)]
+//@ ensures[C14] isNil(result0) ==> len((*l)[len(*l)-1].LHS) + len((*l)[len(*l)-1].Comparator) + len((*l)[len(*l)-1].RHS) <= len(value)
+//@ ensures[C14] isNil(result0) ==> (*l)[len(*l)-1].Comparator == value[len(value)-len((*l)[len(*l)-1].RHS)-len((*l)[len(*l)-1].Comparator):len(value)-len((*l)[len(*l)-1].RHS)]
+//
+//@ func (*rule/flags.interFieldFilterList).Set
+//@ ensures[C14] isNil(result0) ==> len(*l) == old(len(*l)) + 1
+//@ ensures[C14] !isNil(result0) ==> len(*l) == old(len(*l))
+//@ ensures[C14] forall i int :: 0 <= i && i < old(len(*l)) ==> (*l)[i] == old((*l)[i])
+//@ ensures[C14] isNil(result0) ==> (*l)[len(*l)-1].Type == rule.InterFieldFilterType
+//@ ensures[C14] isNil(result0) ==> (*l)[len(*l)-1].LHS == value[0:len((*l)[len(*l)-1].LHS)]
+//@ ensures[C14] isNil(result0) ==> (*l)[len(*l)-1].RHS == value[len(value)-len((*l)[len(*l)-1].RHS):len(value)]
+//@ ensures[C14] isNil(result0) ==> len((*l)[len(*l)-1].LHS) + len((*l)[len(*l)-1].Comparator) + len((*l)[len(*l)-1].RHS) <= len(value)
+//@ ensures[C14] isNil(result0) ==> (*l)[len(*l)-1].Comparator == value[len(value)-len((*l)[len(*l)-1].RHS)-len((*l)[len(*l)-1].Comparator):len(value)-len((*l)[len(*l)-1].RHS)]
+//
+// -S / -k: every comma-separated part of the argument is appended (trimmed),
+// in order, after what was already collected.
+//@ func (*rule/flags.stringList).Set
+//@ ensures[C14] isNil(result0)
+//@ ensures[C14] len(*l) == old(len(*l)) + splitN(value, ",")
+//@ ensures[C14] forall i int :: 0 <= i && i < old(len(*l)) ==> (*l)[i] == old((*l)[i])
+//@ ensures[C14] forall k int :: 0 <= k && k < splitN(value, ",") ==> (*l)[old(len(*l)) + k] == trimSpace(splitPart(value, ",", k))
+//@ loop 0 invariant len(*l) == old(len(*l)) + rangeindex + 1
+//@ loop 0 invariant lo(*l) == old(lo(*l))
+//@ loop 0 invariant base(*l) != base(words)
+//@ loop 0 invariant forall j int :: lo(words) <= j && j < hi(words) ==> at(words, j) == splitPart(value, ",", j - lo(words))
+//@ loop 0 invariant forall j int :: lo(*l) <= j && j < lo(*l) + old(len(*l)) ==> at(*l, j) == old(at(*l, j))
+//@ loop 0 invariant forall j int :: lo(*l) + old(len(*l)) <= j && j <= lo(*l) + old(len(*l)) + rangeindex ==> at(*l, j) == trimSpace(splitPart(value, ",", j - lo(*l) - old(len(*l))))
+//
+// -a / -A: accepted only as exactly one list and one action (in either
+// order), each being a complete comma-separated part of the argument.
+//@ spec listWord(x string) bool := x == "task" || x == "exit" || x == "user" || x == "exclude"
+//@ spec actionWord(x string) bool := x == "never" || x == "always"
+//@ func (*rule/flags.addFlag).Set
+//@ requires f.List == "" || listWord(f.List)
+//@ requires f.Action == "" || actionWord(f.Action)
+//@ ensures[C14] f.List == "" || listWord(f.List)
+//@ ensures[C14] f.Action == "" || actionWord(f.Action)
+//@ ensures[C14] isNil(result0) ==> listWord(f.List) && actionWord(f.Action)
+//@ ensures[C14] isNil(result0) ==> splitN(value, ",") <= 2
+//@ ensures[C14] isNil(result0) && old(f.List) == "" && old(f.Action) == "" ==> splitN(value, ",") == 2
+//@ ensures[C14] isNil(result0) && old(f.List) == "" && old(f.Action) == "" ==> (f.List == trimSpace(splitPart(value, ",", 0)) && f.Action == trimSpace(splitPart(value, ",", 1))) || (f.Action == trimSpace(splitPart(value, ",", 0)) && f.List == trimSpace(splitPart(value, ",", 1)))
+//@ loop 0 invariant len(parts) == splitN(value, ",") && len(parts) <= 2
+//@ loop 0 invariant forall j int :: lo(parts) <= j && j < hi(parts) ==> at(parts, j) == splitPart(value, ",", j - lo(parts))
+//@ loop 0 invariant f.List == "" || listWord(f.List)
+//@ loop 0 invariant f.Action == "" || actionWord(f.Action)
+//@ loop 0 invariant rangeindex == -1 ==> f.List == old(f.List) && f.Action == old(f.Action)
+//@ loop 0 invariant rangeindex == 0 ==> (listWord(f.List) && f.List == trimSpace(splitPart(value, ",", 0)) && f.Action == old(f.Action)) || (actionWord(f.Action) && f.Action == trimSpace(splitPart(value, ",", 0)) && f.List == old(f.List))
+//@ loop 0 invariant rangeindex == 1 ==> (f.List == trimSpace(splitPart(value, ",", 1)) && f.Action == old(f.Action)) || (f.List == trimSpace(splitPart(value, ",", 0)) && f.Action == trimSpace(splitPart(value, ",", 1)) && listWord(f.List) && actionWord(f.Action)) || (f.Action == trimSpace(splitPart(value, ",", 0)) && f.List == trimSpace(splitPart(value, ",", 1)) && listWord(f.List) && actionWord(f.Action)) || (f.Action == trimSpace(splitPart(value, ",", 1)) && f.List == old(f.List))
+//
+// -p: one access type per character, in order; any other character rejects.
+//@ func (*rule/flags.fileAccessTypeFlags).Set
+//@ ensures[C14] isNil(result0) ==> len(*f) == old(len(*f)) + len(value)
+//@ ensures[C14] forall i int :: 0 <= i && i < old(len(*f)) ==> (*f)[i] == old((*f)[i])
+//@ ensures[C14] isNil(result0) ==> forall k int :: 0 <= k && k < len(value) ==> (value[k] == 'r' && (*f)[old(len(*f)) + k] == rule.ReadAccessType) || (value[k] == 'w' && (*f)[old(len(*f)) + k] == rule.WriteAccessType) || (value[k] == 'x' && (*f)[old(len(*f)) + k] == rule.ExecuteAccessType) || (value[k] == 'a' && (*f)[old(len(*f)) + k] == rule.AttributeChangeAccessType)
+//@ loop 0 invariant len(*f) == old(len(*f)) + rangeindex + 1
+//@ loop 0 invariant lo(*f) == old(lo(*f))
+//@ loop 0 invariant base(*f) != base(rangeslice) && len(rangeslice) == len(value)
+//@ loop 0 invariant forall j int :: lo(rangeslice) <= j && j < hi(rangeslice) ==> at(rangeslice, j) == value[j - lo(rangeslice)]
+//@ loop 0 invariant forall j int :: lo(*f) <= j && j < lo(*f) + old(len(*f)) ==> at(*f, j) == old(at(*f, j))
+//@ loop 0 invariant forall j int :: lo(*f) + old(len(*f)) <= j && j <= lo(*f) + old(len(*f)) + rangeindex ==> (value[j - lo(*f) - old(len(*f))] == 'r' && at(*f, j) == rule.ReadAccessType) || (value[j - lo(*f) - old(len(*f))] == 'w' && at(*f, j) == rule.WriteAccessType) || (value[j - lo(*f) - old(len(*f))] == 'x' && at(*f, j) == rule.ExecuteAccessType) || (value[j - lo(*f) - old(len(*f))] == 'a' && at(*f, j) == rule.AttributeChangeAccessType)
+//
+// validate: exactly one of delete / watch / syscall-rule flags, and a syscall
+// rule has exactly one of -a / -A, which decides its type.
+//@ func (*rule/flags.ruleFlagSet).validate
+//@ modifies r.Type
+//@ ensures[C14] isNil(result0) ==> (r.Type == rule.DeleteAllRuleType || r.Type == rule.FileWatchRuleType || r.Type == rule.AppendSyscallRuleType || r.Type == rule.PrependSyscallRuleType)
+//@ ensures[C14] isNil(result0) && r.Type == rule.AppendSyscallRuleType ==> (r.Append.List != "" || r.Append.Action != "") && r.Prepend.List == "" && r.Prepend.Action == ""
+//@ ensures[C14] isNil(result0) && r.Type == rule.PrependSyscallRuleType ==> (r.Prepend.List != "" || r.Prepend.Action != "") && r.Append.List == "" && r.Append.Action == ""
+//
+// Parse: nothing is left over after the flags, and the rule carries exactly
+// what the flag set collected.
+//@ func rule/flags.Parse
+//@ ensures[C14] isNil(result1) ==> flagLeftover() == 0
+//@ ensures[C14] isNil(result1) ==> !isNil(result0)
+//
+// The returned rule carries exactly what the flag set collected (ruleFlagSet
+// is Parse's local; these clauses are checked at Parse's own returns).
+//@ ensures[C14] isNil(result1) ==> (ruleFlagSet.Type == rule.DeleteAllRuleType && typeIs(result0, *rule.DeleteAllRule)) || (ruleFlagSet.Type == rule.FileWatchRuleType && typeIs(result0, *rule.FileWatchRule)) || ((ruleFlagSet.Type == rule.AppendSyscallRuleType || ruleFlagSet.Type == rule.PrependSyscallRuleType) && typeIs(result0, *rule.SyscallRule))
+//@ ensures[C14] isNil(result1) && typeIs(result0, *rule.DeleteAllRule) ==> ptr(rule.DeleteAllRule, payload(result0)).Type == rule.DeleteAllRuleType && ptr(rule.DeleteAllRule, payload(result0)).Keys == ruleFlagSet.Key
+//@ ensures[C14] isNil(result1) && typeIs(result0, *rule.FileWatchRule) ==> ptr(rule.FileWatchRule, payload(result0)).Type == rule.FileWatchRuleType && ptr(rule.FileWatchRule, payload(result0)).Path == ruleFlagSet.Path
+//@ ensures[C14] isNil(result1) && typeIs(result0, *rule.FileWatchRule) ==> ptr(rule.FileWatchRule, payload(result0)).Permissions == ruleFlagSet.Permissions && ptr(rule.FileWatchRule, payload(result0)).Keys == ruleFlagSet.Key
+//@ ensures[C14] isNil(result1) && typeIs(result0, *rule.SyscallRule) ==> ptr(rule.SyscallRule, payload(result0)).Type == ruleFlagSet.Type && ptr(rule.SyscallRule, payload(result0)).Filters == ruleFlagSet.Filters
+//@ ensures[C14] isNil(result1) && typeIs(result0, *rule.SyscallRule) ==> ptr(rule.SyscallRule, payload(result0)).Syscalls == ruleFlagSet.Syscalls && ptr(rule.SyscallRule, payload(result0)).Keys == ruleFlagSet.Key
+//@ ensures[C14] isNil(result1) && typeIs(result0, *rule.SyscallRule) && ruleFlagSet.Type == rule.AppendSyscallRuleType ==> ptr(rule.SyscallRule, payload(result0)).List == ruleFlagSet.Append.List && ptr(rule.SyscallRule, payload(result0)).Action == ruleFlagSet.Append.Action
+//@ ensures[C14] isNil(result1) && typeIs(result0, *rule.SyscallRule) && ruleFlagSet.Type == rule.PrependSyscallRuleType ==> ptr(rule.SyscallRule, payload(result0)).List == ruleFlagSet.Prepend.List && ptr(rule.SyscallRule, payload(result0)).Action == ruleFlagSet.Prepend.Action
